@@ -1,6 +1,8 @@
 import HcipyVerif.Model.Jones
 import Mathlib.Data.Complex.Basic
 import Mathlib.Tactic.Ring
+import Mathlib.Tactic.Linarith
+import Mathlib.Analysis.Real.Sqrt
 
 /-!
 # Helper lemmas for the Jones model (C08, C07)
@@ -88,5 +90,85 @@ theorem Cx.toComplex_injective : Function.Injective Cx.toComplex := by
   simp only [Cx.toComplex, Complex.mk.injEq] at h
   obtain ⟨h1, h2⟩ := h
   subst h1; subst h2; rfl
+
+end HcipyVerif.Jones
+
+/-! ### intensity of a partially polarised wavefront (shared by C07 and C08) -/
+namespace HcipyVerif.Jones
+
+/-- Expand the pair arithmetic of the model into real polynomials (model definitions only). -/
+macro "jones_model_expand" : tactic => `(tactic|
+  simp only [jonesStokes, vecStokes, scalarStokes, cohOfVec, stokesOfCoh, coh2, S4.half, mulVec,
+    polarizer, retarder,
+    Cx.add_re, Cx.add_im, Cx.sub_re, Cx.sub_im, Cx.mul_re, Cx.mul_im, Cx.neg_re, Cx.neg_im,
+    Cx.conj_re, Cx.conj_im, Cx.smul_re, Cx.smul_im, Cx.normSq,
+    J2.mul_a11, J2.mul_a12, J2.mul_a21, J2.mul_a22, J2.add_a11, J2.add_a12, J2.add_a21, J2.add_a22,
+    J2.adj_a11, J2.adj_a12, J2.adj_a21, J2.adj_a22, J2.apply_x, J2.apply_y,
+    J2.scale_a11, J2.scale_a12, J2.scale_a21, J2.scale_a22, J2.det_def])
+
+/-- One row `(p, q)` of a Jones-matrix field against a physical Stokes vector
+(`0 ≤ a`, `b² + c² + d² ≤ a²`): its contribution to `2 I` is non-negative (Cauchy–Schwarz on the
+Poincaré sphere). -/
+theorem row_intensity_nonneg (a b c d : ℝ) (ha : 0 ≤ a) (hphys : b ^ 2 + c ^ 2 + d ^ 2 ≤ a ^ 2)
+    (pr pi qr qi : ℝ) :
+    0 ≤ a * (pr * pr + pi * pi + qr * qr + qi * qi) + b * (pr * pr + pi * pi - qr * qr - qi * qi)
+      + c * (2 * (pr * qr + pi * qi)) + d * (2 * (pi * qr - pr * qi)) := by
+  set i := pr * pr + pi * pi + qr * qr + qi * qi with hi
+  set q := pr * pr + pi * pi - qr * qr - qi * qi with hq
+  set u := 2 * (pr * qr + pi * qi) with hu
+  set v := 2 * (pi * qr - pr * qi) with hv
+  have hpure : q ^ 2 + u ^ 2 + v ^ 2 = i ^ 2 := by rw [hi, hq, hu, hv]; ring
+  have hi0 : 0 ≤ i := by
+    rw [hi]; nlinarith [mul_self_nonneg pr, mul_self_nonneg pi, mul_self_nonneg qr, mul_self_nonneg qi]
+  have cs : (b * q + c * u + d * v) ^ 2 ≤ (b ^ 2 + c ^ 2 + d ^ 2) * (q ^ 2 + u ^ 2 + v ^ 2) := by
+    nlinarith [sq_nonneg (b * u - c * q), sq_nonneg (b * v - d * q), sq_nonneg (c * v - d * u)]
+  have h2 : (b * q + c * u + d * v) ^ 2 ≤ (a * i) ^ 2 := by
+    have : (b ^ 2 + c ^ 2 + d ^ 2) * (q ^ 2 + u ^ 2 + v ^ 2) ≤ a ^ 2 * i ^ 2 := by
+      rw [hpure]; exact mul_le_mul_of_nonneg_right hphys (sq_nonneg i)
+    nlinarith
+  have hai : 0 ≤ a * i := mul_nonneg ha hi0
+  have := abs_le_of_sq_le_sq' h2 hai
+  nlinarith [this.1]
+
+/-- The model's intensity `(J C(S) Jᴴ)` of a Jones-matrix wavefront is non-negative for a physical
+input Stokes vector. -/
+theorem jonesStokes_i_nonneg (e : J2 ℝ) (sv : S4 ℝ) (ha : 0 ≤ sv.i)
+    (hphys : sv.q ^ 2 + sv.u ^ 2 + sv.v ^ 2 ≤ sv.i ^ 2) : 0 ≤ (jonesStokes e sv).i := by
+  obtain ⟨⟨xr, xi⟩, ⟨yr, yi⟩, ⟨zr, zi⟩, ⟨wr, wi⟩⟩ := e
+  obtain ⟨a, b, c, d⟩ := sv
+  simp only at ha hphys
+  have h1 := row_intensity_nonneg a b c d ha hphys xr xi yr yi
+  have h2 := row_intensity_nonneg a b c d ha hphys zr zi wr wi
+  have : (jonesStokes (⟨⟨xr, xi⟩, ⟨yr, yi⟩, ⟨zr, zi⟩, ⟨wr, wi⟩⟩ : J2 ℝ) ⟨a, b, c, d⟩).i
+      = (1 / 2) * ((a * (xr * xr + xi * xi + yr * yr + yi * yi) + b * (xr * xr + xi * xi - yr * yr - yi * yi)
+        + c * (2 * (xr * yr + xi * yi)) + d * (2 * (xi * yr - xr * yi)))
+        + (a * (zr * zr + zi * zi + wr * wr + wi * wi) + b * (zr * zr + zi * zi - wr * wr - wi * wi)
+        + c * (2 * (zr * wr + zi * wi)) + d * (2 * (zi * wr - zr * wi)))) := by
+    jones_model_expand; ring
+  rw [this]; linarith
+
+/-- The two complementary projectors `P(θ)`, `P(θ+π/2)` split the intensity of any Jones-matrix wavefront. -/
+theorem polarizer_ports_split (c s : ℝ) (h : c ^ 2 + s ^ 2 = 1) (e : J2 ℝ) (sv : S4 ℝ) :
+    (jonesStokes (polarizer c s * e) sv).i + (jonesStokes (polarizer (-s) c * e) sv).i
+      = (jonesStokes e sv).i := by
+  obtain ⟨⟨er1, ei1⟩, ⟨er2, ei2⟩, ⟨er3, ei3⟩, ⟨er4, ei4⟩⟩ := e
+  obtain ⟨a, b, cc, d⟩ := sv
+  have e : (jonesStokes (polarizer c s * (⟨⟨er1, ei1⟩, ⟨er2, ei2⟩, ⟨er3, ei3⟩, ⟨er4, ei4⟩⟩ : J2 ℝ)) ⟨a, b, cc, d⟩).i
+        + (jonesStokes (polarizer (-s) c * (⟨⟨er1, ei1⟩, ⟨er2, ei2⟩, ⟨er3, ei3⟩, ⟨er4, ei4⟩⟩ : J2 ℝ)) ⟨a, b, cc, d⟩).i
+      = (c ^ 2 + s ^ 2) ^ 2 * (jonesStokes (⟨⟨er1, ei1⟩, ⟨er2, ei2⟩, ⟨er3, ei3⟩, ⟨er4, ei4⟩⟩ : J2 ℝ) ⟨a, b, cc, d⟩).i := by
+    jones_model_expand
+    ring
+  rw [e, h]; ring
+
+/-- A point `c + i s` of the unit circle: non-zero, inverse = conjugate. -/
+theorem unit_circle (c s : ℝ) (h : c ^ 2 + s ^ 2 = 1) :
+    (⟨c, s⟩ : ℂ) ≠ 0 ∧ (⟨c, s⟩ : ℂ)⁻¹ = ⟨c, -s⟩ ∧ (starRingEnd ℂ) (⟨c, s⟩ : ℂ) = (⟨c, s⟩ : ℂ)⁻¹ := by
+  have hn : Complex.normSq (⟨c, s⟩ : ℂ) = 1 := by rw [Complex.normSq_mk]; linarith
+  have h0 : (⟨c, s⟩ : ℂ) ≠ 0 := by
+    intro h0; rw [h0, Complex.normSq_zero] at hn; exact zero_ne_one hn
+  have hinv : (⟨c, s⟩ : ℂ)⁻¹ = ⟨c, -s⟩ := by
+    rw [Complex.inv_def, hn]; apply Complex.ext <;> simp
+  refine ⟨h0, hinv, ?_⟩
+  rw [hinv]; apply Complex.ext <;> simp
 
 end HcipyVerif.Jones
